@@ -70,6 +70,11 @@ CLAIMED = {
   text='Decides: on every path of nextchar up to 4 (quick) / 5 (thorough) reads the line counter advances exactly once per consumed new-line and the column restarts; token positions for 13 layouts of white space / comments / splices; the presumed location set by 9 forms of #line and line markers and that it is applied after the directive line; the diagnostic header format; that all 200+ error() calls are given a token/scanner location and that decode errors in concatenated literals use the piece location. Presumed-location arithmetic for arbitrary marker sequences is NOT decided; new-line tokens themselves carry the following line (observed quirk, not judged).',
   note='Trusts clang 14 front end, lib/eai.py, harness models shared with props/c12.py and props/c14.py.',
   design='5/C11'),
+ 'C08': dict(
+  technique='abstract interpretation of qbe.c:emittype/mkfunc, the call arm of expr.c:postfixexpr and of qbe.c:funcexpr, and type.c:typeadjust over families of aggregate/function type descriptors; compared with the QBE aggregate-type grammar and C11 6.5.2.2 / 6.7.6.3',
+  text='Decides on finite descriptor families: the aggregate type description text (class letters, total element counts over all array dimensions, nested aggregates emitted first, union alternatives) for 11 struct/union shapes; that mkfunc registers the return type and every parameter type, named or not; for 40 (callee signature x argument list) combinations the converted argument types (parameter type for named, default promotions for variadic), arity diagnostics and the position of the variadic marker; parameter adjustment of arrays. Register classification of arbitrary aggregates by the backend and the va_list layouts (see C05.f) are outside this check.',
+  note='Trusts clang 14 front end, lib/eai.py, the printf formatter and token-script models in props/c08.py.',
+  design='5/C08'),
  'C01': dict(
   technique='abstract interpretation (partial evaluation of the lowering functions over the static type/operator descriptor domain) + AST table extraction vs C11/QBE oracle tables',
   text='Decides structural clauses only: the instruction-selection, conversion, load/store, truthiness and bit-field shift tables that every compiled program is lowered through are extracted from the current source by an abstract interpreter and compared exhaustively (over the finite descriptor domain) with oracle tables written from C11 and the QBE manual; sibling switches are checked for exhaustiveness. Semantic equivalence of emitted IL for arbitrary programs is NOT decided.',
